@@ -88,6 +88,11 @@ def oracle(c, r):
             bad.append({'enable_count_after': r['enable_count_after']})
         if r['timings_after_more_calls'] != r['timings']:
             bad.append({'recorded_after_the_statement': True})
+        # independent of the renderer: every recorded line of every function has its row (hits cell) in what was paged
+        if r['pages']:
+            missing = rows_missing(r['pages'][0], r['timings'])
+            if missing:
+                bad.append({'recorded_lines_without_a_row_in_the_paged_report': missing})
         if r['pages'] and r['pages'][0] != r['live_text']:
             bad.append({'paged_text_differs_from_live_print_stats': [r['pages'][0][:300], r['live_text'][:300]]})
         if c['D'] and r.get('D_timings') != r['timings']:
@@ -98,6 +103,33 @@ def oracle(c, r):
         if c['D'] and r.get('D_timings') in ('missing', None):
             bad.append({'-D file': 'missing'})
     return bad
+
+
+def rows_missing(text, timings):
+    """{function: [[line offset, hits] recorded but not shown]} — a small parser of the report blocks"""
+    import re
+    shown = {}
+    cur = None
+    for line in text.split('\n'):
+        m = re.match(r'Function: (\S+) at line (\d+)', line)
+        if m:
+            cur = (m.group(1), int(m.group(2)))
+            shown.setdefault(cur, set())
+            continue
+        m = re.match(r'\s*(\d+)\s+(\d+)\s+\S+\s+\S+\s+\S+', line)
+        if m and cur:
+            shown[cur].add((int(m.group(1)) - cur[1], int(m.group(2))))
+    out = {}
+    for key, entries in timings.items():
+        name = key.split(':', 1)[1].split('@')[0]
+        have = set()
+        for (n, _first), rows in shown.items():
+            if n == name:
+                have |= rows
+        lost = [e for e in entries if (e[0], e[1]) not in have]
+        if lost:
+            out[key] = lost
+    return out
 
 
 def model_lines(cs):
